@@ -182,6 +182,65 @@ fn run(sh: &mut Shard) {
         let n = check_program(sh, &prog);
         sh.add("runs", n);
     });
+    // pairs of DIFFERENT names that a shortcut could take for one: equal under the usual string hashes (x31, x33,
+    // sum, xor), anagrams, equal length, equal in the first or last 8 / 16 / 32 bytes, equal up to case, look-alike
+    // letters of another script — both declared (each keeps its own value), and only one declared (the other is
+    // refused), at top level, as parameters, in a block inside a function
+    {
+        use crate::gen::*;
+        use nederlang::verif::Operator;
+        let long = |c: &str, tail: &str| format!("{}{}", c.repeat(8), tail);
+        let pairs: Vec<(String, String)> = vec![
+            ("Aa".into(), "BB".into()),
+            ("AaAa".into(), "BBBB".into()),
+            ("AaBB".into(), "BBAa".into()),
+            ("kamerAa".into(), "kamerBB".into()),
+            ("az".into(), "bY".into()),
+            ("ab".into(), "ba".into()),
+            ("abc".into(), "acb".into()),
+            ("abc".into(), "xyz".into()),
+            ("ad".into(), "bc".into()),
+            ("naam".into(), "Naam".into()),
+            ("naam".into(), "NAAM".into()),
+            ("a".into(), "A".into()),
+            ("x1".into(), "x2".into()),
+            ("x_1".into(), "x1".into()),
+            ("_a".into(), "a_".into()),
+            (long("a", "1"), long("a", "2")),
+            (long("ab", "1"), long("ab", "2")),
+            (long("abcd", "1"), long("abcd", "2")),
+            (format!("1{}", "a".repeat(8)).replace('1', "b"), format!("c{}", "a".repeat(8))),
+            (format!("x{}", "a".repeat(32)), format!("y{}", "a".repeat(32))),
+            ("a".repeat(255), "a".repeat(256)),
+            ("a".into(), "\u{430}".into()),
+            ("e".into(), "\u{e9}".into()),
+            ("\u{e9}".into(), "\u{ea}".into()),
+            ("ss".into(), "\u{df}".into()),
+            ("k".into(), "\u{212a}".into()),
+            ("\u{3c9}".into(), "\u{3a9}".into()),
+        ];
+        for (n1, n2) in &pairs {
+            let progs: Vec<Vec<Stmt>> = vec![
+                vec![let_(n1, int(1)), let_(n2, int(2)), es(assign(id(n1), infix(id(n1), Operator::Add, int(10)))), es(array(vec![id(n1), id(n2)]))],
+                vec![let_(n2, int(2)), let_(n1, int(1)), es(array(vec![id(n1), id(n2)]))],
+                vec![let_(n1, int(1)), print1(id(n1)), es(id(n2))],
+                vec![let_(n2, int(2)), print1(id(n2)), es(id(n1))],
+                vec![es(func("f", &[n1.as_str(), n2.as_str()], vec![es(iff(boolean(true), vec![let_("tussen", infix(id(n1), Operator::Multiply, int(10))), es(infix(id("tussen"), Operator::Add, id(n2)))], None))])), es(calln("f", vec![int(1), int(2)]))],
+                vec![es(func("f", &[n1.as_str()], vec![es(iff(boolean(true), vec![let_(n2, int(10)), es(infix(id(n1), Operator::Add, id(n2)))], None))])), es(calln("f", vec![int(1)]))],
+                vec![es(func("f", &[n1.as_str()], vec![es(id(n2))])), es(calln("f", vec![int(1)]))],
+                vec![let_(n1, int(1)), Stmt::Block(vec![let_(n2, int(2)), print1(id(n1))]), es(id(n1))],
+            ];
+            for prog in progs {
+                if !sh.mine() {
+                    continue;
+                }
+                sh.begin(&|| printer::program(&prog));
+                sh.count("family:confusable-names");
+                let n = check_program(sh, &prog);
+                sh.add("runs", n);
+            }
+        }
+    }
     for prog in slices::nested_function_programs() {
         if !sh.mine() {
             continue;
